@@ -36,7 +36,7 @@
 From Coq Require Import List ZArith Bool.
 Import ListNotations.
 From LC Require Import Base Tree Fp Lookup Api ScanAction Tokens Lexer Parser GrammarFacts Reader Writer WriterFacts LexWrite ParseWrite
-  ParseComplete ParseFail ParseExact ParseTotal ParseNames ParseSyntax Bisim.
+  ParseComplete ParseFail ParseExact ParseTotal ParseNames ParseSyntax ReadSyntax Bisim.
 From LC.gen Require Import Consts.
 Local Open Scope Z_scope.
 
@@ -294,6 +294,71 @@ Theorem C02_syntax_error_earlier_viable : forall ov root0, s_pl root0 = PGroup -
     forall pre1 pre2, pre = pre1 ++ pre2 -> exists suffix s3, p_config ov (mkP root0 (pre1 ++ suffix) false O 0 None) = POk s3.
 Proof. exact syntax_error_earlier_viable. Qed.
 Print Assumptions C02_syntax_error_earlier_viable.
+
+(* ---- the same for config_read (ReadSyntax.v): message, file and line identify the first offending token ----
+   When the parser answers "syntax error" on the scanner's token stream, config_read fails with error type 2 (parse) and
+   the text "syntax error", file and line of a token t of the stream such that no derivable text begins with the tokens
+   up to and including t while the tokens before t extend to an accepted input; when t is an error token of the scanner
+   (an unrepresentable literal, an include failure) the text and line are those the scanner recorded. *)
+Theorem C02_read_syntax_error : forall atof FS c top text,
+  (forall f content, fs_lookup FS f = Some (FFile content) -> bytes_ok content) -> bytes_ok text ->
+  let toks := fst (lex_top atof FS (set_files (set_root (set_err c err0) new_root) []) top text) in
+  let ov := get_option c OPT_OVERRIDES in
+  let root0 := set_pos new_root 0 top in
+  let r := config_read atof FS c top text in
+  max_nest toks 0 0 <= NEST_LIMIT ->
+  forall s', p_config ov (mkP root0 toks false O 0 None) = PErr PErrSyntax s' ->
+  exists pre t rest,
+    toks = pre ++ t :: rest /\ p_toks s' = t :: rest /\
+    rd_out_ r = RdFail /\
+    c_err (rd_cfg r) = match lt_err t with
+                       | None => mkErr 2 (Some ERR_SYNTAX) (lt_file t) (lt_line t)
+                       | Some (txt, f, l) => mkErr 2 (Some txt) (lt_file t) l
+                       end /\
+    (lt_err t <> None -> lt_tok t = TkError) /\
+    (forall rest' ts junk, map lt_tok (pre ++ t :: rest') = ts ++ TkEOF :: junk -> ~ Dsettings ts) /\
+    (exists suffix s3, p_config ov (mkP root0 (pre ++ suffix) false O 0 None) = POk s3).
+Proof. intros atof FS c top text HFS Hb. cbv zeta. apply read_syntax_error; assumption. Qed.
+Print Assumptions C02_read_syntax_error.
+
+(* every read within the nesting limit has exactly one of three outcomes: success with the denoted configuration; a
+   semantic error (for a derivable text: the first offence, with its message, file and line); or a syntax error at the
+   first token that cannot continue a derivation.  No other outcome exists (totality of scanner and parser: C03). *)
+Theorem C02_read_trichotomy : forall atof FS c top text,
+  (forall f content, fs_lookup FS f = Some (FFile content) -> bytes_ok content) -> bytes_ok text ->
+  let toks := fst (lex_top atof FS (set_files (set_root (set_err c err0) new_root) []) top text) in
+  let ov := get_option c OPT_OVERRIDES in
+  let root0 := set_pos new_root 0 top in
+  let r := config_read atof FS c top text in
+  let res := p_config ov (mkP root0 toks false O 0 None) in
+  max_nest toks 0 0 <= NEST_LIMIT ->
+  (rd_out_ r = RdOk /\
+   exists ms, wf_m ms = true /\ spells ms toks /\ sem_m ov ms [] = true /\
+              pobs (c_root (rd_cfg r)) = PN None None PGroup 0 (den_m ms [])) \/
+  (rd_out_ r = RdFail /\
+   exists e s', res = PErr e s' /\ (e = PErrDup \/ e = PErrMismatch) /\
+     forall ms, wf_m ms = true -> spells ms toks ->
+       sem_m ov ms [] = false /\
+       exists l fi, err_m ov ms [] = Some (e, (l, fi)) /\ c_err (rd_cfg r) = mkErr 2 (Some (perr_text e)) fi l) \/
+  (rd_out_ r = RdFail /\
+   (forall ms, wf_m ms = true -> ~ spells ms toks) /\
+   exists s' pre t rest,
+     res = PErr PErrSyntax s' /\ toks = pre ++ t :: rest /\ p_toks s' = t :: rest /\
+     c_err (rd_cfg r) = match lt_err t with
+                        | None => mkErr 2 (Some ERR_SYNTAX) (lt_file t) (lt_line t)
+                        | Some (txt, f, l) => mkErr 2 (Some txt) (lt_file t) l
+                        end /\
+     (lt_err t <> None -> lt_tok t = TkError) /\
+     (forall rest' ts junk, map lt_tok (pre ++ t :: rest') = ts ++ TkEOF :: junk -> ~ Dsettings ts) /\
+     (exists suffix s3, p_config ov (mkP root0 (pre ++ suffix) false O 0 None) = POk s3)).
+Proof. intros atof FS c top text HFS Hb. cbv zeta. apply read_trichotomy; assumption. Qed.
+Print Assumptions C02_read_trichotomy.
+
+(* evaluated: "a = ( 1 ,<LF><LF> } ) ;<LF>" read by config_read fails with "syntax error" at line 3 *)
+Example C02_read_syntax_error_example :
+  let r := config_read (fun _ => 0) [] cfg_init None ex_text in
+  (rd_out_ r, c_err (rd_cfg r)) = (RdFail, mkErr 2 (Some ERR_SYNTAX) None 3).
+Proof. exact ex_read_syntax_error. Qed.
 
 (* non-vacuity:  a = ( 1 , } ) ; <end>  - the error is at the closing brace in the middle, line 3; the tokens before
    it followed by  ) <end>  are accepted *)
